@@ -8,10 +8,10 @@ The worktree is removed afterwards. Nothing is written to /repo."""
 import json, os, shutil, subprocess, sys, tempfile
 
 ENV = dict(os.environ, GOFLAGS="-mod=mod", GOPROXY="off", GOSUMDB="off", GOTOOLCHAIN="local")
-ALL = ["C%02d" % i for i in range(1, 21)]
+ALL = [c["property_id"] for c in json.load(open("/verif/MANIFEST.json"))["checks"]]
 
 def sh(cmd, cwd=None, env=ENV, timeout=3600):
-    p = subprocess.run(cmd, shell=True, cwd=cwd, env=env, stdout=subprocess.PIPE, stderr=subprocess.STDOUT, text=True, timeout=timeout)
+    p = subprocess.run(cmd, shell=True, cwd=cwd, env=env, stdout=subprocess.PIPE, stderr=subprocess.STDOUT, text=True, errors="replace", timeout=timeout)
     return p.returncode, p.stdout
 
 def main():
@@ -26,11 +26,17 @@ def main():
     if rc: print(out); sys.exit(2)
     res = {"dir": d, "meta_property": meta.get("property")}
     try:
-        demo_dir = meta.get("demo_dir", "./") or "./"
         demo_src = None
         for name in os.listdir(d):
             if name.endswith("_test.go") or name == "demo_test.go":
                 demo_src = os.path.join(d, name)
+        demo_dir = "./"
+        if demo_src:
+            import re
+            m = re.search(r"^package\s+(\w+)", open(demo_src).read(), re.M)
+            pkg = m.group(1) if m else "gobinlog"
+            pkg = pkg[:-5] if pkg.endswith("_test") else pkg
+            demo_dir = {"gobinlog": "./", "replication": "./replication", "main": "./cmd/binlogDump"}.get(pkg, "./")
         def run_demo():
             if not demo_src: return None, "no demo"
             dst = os.path.join(wt, demo_dir, "zz_seed_demo_test.go")
